@@ -1,101 +1,389 @@
 """C15 — sorting networks: comparator-sequence extraction (engine A1) + zero-one
-principle, size dispatch, compare-exchange decision table."""
+principle, size dispatch, compare-exchange decision table.
+
+Every violation of this file is the result of an evaluation: the network functions are EXECUTED by a concrete
+interpreter (iterator offsets, integers, references, loops, helper calls, lambdas) and the list of compare-exchanges
+they perform is decided with the zero-one principle; the compare-exchange functor is EXECUTED on two labelled elements
+for every consistent outcome of the comparator.  Whatever the interpreters do not understand stops the check as
+undecidable (exit 2); nothing is concluded from a shape that was not found."""
+import os
 import re
 
 from engine import ir, dtable, match
-from engine.ir import kids, const_int, strip_casts
+from engine.ir import kids, const_int
 
 FAMILIES = ["best", "bose_nelson", "bose_nelson_parameter"]
 NS = "tlx::sort_networks::"
 
+CASTS = ("ImplicitCastExpr", "CStyleCastExpr", "CXXStaticCastExpr", "CXXFunctionalCastExpr", "CXXReinterpretCastExpr",
+         "CXXConstCastExpr")
+CONSTRUCTS = ("CXXConstructExpr", "CXXTemporaryObjectExpr")
+INT_TYPES = {"char": (8, True), "signed char": (8, True), "unsigned char": (8, False), "short": (16, True),
+             "unsigned short": (16, False), "int": (32, True), "unsigned int": (32, False), "long": (64, True),
+             "unsigned long": (64, False), "long long": (64, True), "unsigned long long": (64, False)}
+ARITH = ("+", "-", "*", "/", "%", "<<", ">>", "&", "|", "^", "==", "!=", "<", "<=", ">", ">=", "<=>")
+ASSIGN = ("=", "+=", "-=", "*=", "/=", "%=", "<<=", ">>=", "&=", "|=", "^=")
+MUTABLE = ("int", "bool", "it")       # kinds of values a local variable may be (re-)assigned
+FUEL = 200000                         # statements per interpreted entry point
+DEPTH = 64
+
+
+def is_ref_ty(ty):
+    return (ty or "").rstrip().endswith("&")
+
+
+def is_cs_ty(ty):
+    return "sort_networks::CS_" in (ty or "")
+
+
+def bare_ty(ty):
+    t = (ty or "").strip()
+    while t.endswith("&"):
+        t = t[:-1].strip()
+    if t.startswith("const "):
+        t = t[6:].strip()
+    if t.endswith("const") and not t[:-5].rstrip()[-1:].isalnum():      # "int *const"
+        t = t[:-5].strip()
+    elif t.endswith(" const"):
+        t = t[:-6].strip()
+    return t
+
+
+def unwrap(n):
+    """looks through casts and parentheses only (not through copy constructions: a copy is not the object)"""
+    while n is not None and n["k"] in CASTS + ("ParenExpr",) and kids(n):
+        n = kids(n)[0]
+    return n
+
+
+def num(v):
+    return int(v[1]) if v is not None and v[0] in ("int", "bool") else None
+
+
+def is_std(n, names):
+    return "callee" in n and n["callee"]["name"] in names and n["callee"].get("qname", "").startswith("std::")
+
+
+def foreign_label(s):
+    """a case/default label below the top level of a switch body (not flattened by flatten_switch)"""
+    if s is None or s["k"] == "SwitchStmt":
+        return False
+    if s["k"] in ("CaseStmt", "DefaultStmt"):
+        return True
+    return any(foreign_label(c) for c in kids(s))
+
 
 class NetInterp:
-    """abstract interpreter for network functions: values are
-    ('it', off) iterator at slot off | ('slot', i) | ('cswap',)"""
+    """concrete interpreter for network functions.  A variable is a cell [value]; references and by-reference lambda
+    captures share the cell.  Values: ('it', off) iterator at slot off | ('slot', i) reference to element i |
+    ('int', k) | ('bool', b) | ('cswap',) compare-exchange functor | ('cmp',) the caller's comparator |
+    ('lambda', {did: cell})"""
 
     def __init__(self, tu, ns):
         self.tu = tu
         self.ns = ns
         self.fn_visited = set()
+        self.defaulted = False
+        self.steps = 0
+        self.depth = 0
+        self._ret = None
+
+    # ------------------------------------------------------------------ integers
+    def wrap(self, v, ty, fn, n):
+        t = bare_ty(ty)
+        if t == "bool":
+            return ("bool", bool(v))
+        spec = INT_TYPES.get(t)
+        if spec is None:
+            if 0 <= v < 128:
+                return ("int", v)
+            raise dtable.Undecidable("%s: integer %d of a type whose range is not known (%s)" % (fn.nloc(n), v, ty))
+        bits, signed = spec
+        if signed:
+            if not -(1 << (bits - 1)) <= v < (1 << (bits - 1)):
+                raise dtable.Undecidable("%s: signed integer overflow while interpreting a network function" % fn.nloc(n))
+            return ("int", v)
+        return ("int", v % (1 << bits))
+
+    def arith(self, op, a, b, ty, fn, n):
+        """a OP b for two values, None when the combination is not understood"""
+        if op == "<=>":
+            # the ordering object is represented by its sign (it is only ever compared with the literal 0)
+            if (a[0] == "it" and b[0] == "it") or (num(a) is not None and num(b) is not None):
+                return ("int", (a[1] > b[1]) - (a[1] < b[1]))
+            return None
+        if a[0] == "it" and b[0] == "it":
+            if op == "-":
+                return self.wrap(a[1] - b[1], ty, fn, n)
+            if op in ("==", "!=", "<", "<=", ">", ">="):
+                x, y = a[1], b[1]
+                return ("bool", {"==": x == y, "!=": x != y, "<": x < y, "<=": x <= y, ">": x > y, ">=": x >= y}[op])
+            return None
+        if a[0] == "it" and num(b) is not None and op in ("+", "-"):
+            return ("it", a[1] + (num(b) if op == "+" else -num(b)))
+        if num(a) is not None and b[0] == "it" and op == "+":
+            return ("it", b[1] + num(a))
+        x, y = num(a), num(b)
+        if x is None or y is None:
+            return None
+        if op in ("==", "!=", "<", "<=", ">", ">="):
+            return ("bool", {"==": x == y, "!=": x != y, "<": x < y, "<=": x <= y, ">": x > y, ">=": x >= y}[op])
+        if op in ("/", "%"):
+            if y == 0:
+                raise dtable.Undecidable("%s: division by zero while interpreting a network function" % fn.nloc(n))
+            q = abs(x) // abs(y) * (1 if (x >= 0) == (y >= 0) else -1)      # C++ truncates towards zero
+            r = q if op == "/" else x - q * y
+        elif op in ("<<", ">>"):
+            if not 0 <= y < 64 or x < 0:
+                raise dtable.Undecidable("%s: shift not understood while interpreting a network function" % fn.nloc(n))
+            r = x << y if op == "<<" else x >> y
+        else:
+            r = {"+": x + y, "-": x - y, "*": x * y, "&": x & y, "|": x | y, "^": x ^ y}[op]
+        return self.wrap(r, ty, fn, n)
+
+    # ------------------------------------------------------------------ expressions (no side effects)
+    def not_understood(self, n, fn):
+        raise dtable.Undecidable("%s: expression not understood in a network function: %s"
+                                 % (fn.nloc(n), dtable.describe(n)))
 
     def value(self, n, env, fn):
-        n0 = n
-        n = strip_casts(n)
+        if n is None:
+            raise dtable.Undecidable("%s: missing expression in a network function" % fn.loc)
         k = n["k"]
         if k == "DeclRefExpr":
-            did = n["ref"]["id"]
-            if did in env:
-                return env[did]
+            cell = env.get(n["ref"]["id"])
+            if cell is not None:
+                if cell[0] is None:
+                    raise dtable.Undecidable("%s: %s is read before it holds a value" % (fn.nloc(n), n["ref"]["name"]))
+                return cell[0]
+            if const_int(n) is not None:
+                return self.wrap(const_int(n), n.get("ty"), fn, n)
             raise dtable.Undecidable("%s: unknown variable %s" % (fn.nloc(n), n["ref"]["name"]))
-        if k in ("CXXConstructExpr",) and len(kids(n)) == 1:
-            return self.value(kids(n)[0], env, fn)      # copy of iterator / cswap
         if k == "ParenExpr":
             return self.value(kids(n)[0], env, fn)
         if const_int(n) is not None:
-            return ("int", const_int(n))
-        if k == "UnaryOperator" and n.get("op") == "!":
+            return ("bool", bool(const_int(n))) if bare_ty(n.get("ty")) == "bool" else ("int", const_int(n))
+        if k in CASTS and kids(n):
             v = self.value(kids(n)[0], env, fn)
-            if v[0] in ("int", "bool"):
-                return ("bool", not v[1])
+            if v[0] in ("int", "bool") and bare_ty(n.get("ty")) != "void":
+                return self.wrap(v[1], n.get("ty"), fn, n)
+            return v
+        if k in CONSTRUCTS or k == "InitListExpr":
+            args = kids(n)
+            if is_cs_ty(n.get("ty")):
+                # a compare-exchange functor is a copy of another one or is built from the caller's comparator
+                if len(args) == 1 and args[0] is not None and args[0]["k"] != "DefaultArg":
+                    v = self.value(args[0], env, fn)
+                    if v[0] in ("cswap", "cmp"):
+                        return ("cswap",)
+                raise dtable.Undecidable("%s: compare-exchange functor that is neither a copy of the one passed in nor built from "
+                                         "the comparator argument" % fn.nloc(n))
+            if len(args) == 1 and args[0] is not None and args[0]["k"] != "DefaultArg":
+                v = self.value(args[0], env, fn)         # copy of an iterator / comparator
+                if v[0] in ("it", "cmp", "int", "bool"):
+                    return v
+                if v[0] == "slot":
+                    raise dtable.Undecidable("%s: copy of an element (%s) in a network function" % (fn.nloc(n), dtable.describe(args[0])))
+            self.not_understood(n, fn)
+        if k == "LambdaExpr":
+            caps = {}
+            for c in n.get("captures", []):
+                cell = env.get(c.get("id"))
+                if cell is None:
+                    raise dtable.Undecidable("%s: lambda captures something that is not a local of the network function (%s)"
+                                             % (fn.nloc(n), c.get("name")))
+                caps[c["id"]] = cell if c.get("byref") else [cell[0]]
+            return ("lambda", caps)
+        if k == "ConditionalOperator":
+            c = num(self.value(kids(n)[0], env, fn))
+            if c is None:
+                self.not_understood(n, fn)
+            return self.value(kids(n)[1] if c else kids(n)[2], env, fn)
         if k == "BinaryOperator" and n.get("op") in ("&&", "||"):
-            a = self.value(kids(n)[0], env, fn)
-            if a[0] in ("int", "bool"):
-                if bool(a[1]) == (n["op"] == "||"):
-                    return ("bool", n["op"] == "||")
-                b = self.value(kids(n)[1], env, fn)
-                if b[0] in ("int", "bool"):
-                    return ("bool", bool(b[1]))
-        bo = match.binop(n, ("-", "==", "!=", "<", "<=", ">", ">="))
-        if bo and const_int(bo[2]) is None or (bo and bo[0] != "-"):
-            try:
-                a, b = self.value(bo[1], env, fn), self.value(bo[2], env, fn)
-            except dtable.Undecidable:
-                a = b = None
-            if a is not None and a[0] == b[0] and a[0] in ("it", "int") and a[1] is not None and b[1] is not None:
-                if bo[0] == "-":
-                    return ("int", a[1] - b[1])
-                return ("bool", {"==": a[1] == b[1], "!=": a[1] != b[1], "<": a[1] < b[1], "<=": a[1] <= b[1], ">": a[1] > b[1], ">=": a[1] >= b[1]}[bo[0]])
-        if k == "BinaryOperator" and n["op"] in ("+", "-"):
-            a, b = kids(n)
-            ca, cb = const_int(a), const_int(b)
-            if cb is not None:
-                v = self.value(a, env, fn)
-                if v[0] == "it":
-                    return ("it", v[1] + (cb if n["op"] == "+" else -cb))
-            if ca is not None and n["op"] == "+":
-                v = self.value(b, env, fn)
-                if v[0] == "it":
-                    return ("it", v[1] + ca)
-        if "callee" in n and n.get("op") in ("+", "-") and len(kids(n)) == 2:
-            a, b = kids(n)
-            cb = const_int(b)
-            if cb is not None:
-                v = self.value(a, env, fn)
-                if v[0] == "it":
-                    return ("it", v[1] + (cb if n["op"] == "+" else -cb))
-        if "callee" in n and n["callee"]["name"] in ("next", "prev") and kids(n):
-            args = [a for a in kids(n) if a is not None and a["k"] != "DefaultArg"]
-            step = 1 if len(args) == 1 else const_int(args[1])
-            v = self.value(args[0], env, fn)
-            if step is not None and v[0] == "it" and v[1] is not None:
-                return ("it", v[1] + (step if n["callee"]["name"] == "next" else -step))
-        if k == "ArraySubscriptExpr" or ("callee" in n and n.get("op") == "[]"):
-            a, b = kids(n)
-            cb = const_int(b)
-            v = self.value(a, env, fn)
-            if cb is not None and v[0] == "it":
-                return ("slot", v[1] + cb)
-        if (k == "UnaryOperator" and n["op"] == "*") or ("callee" in n and n.get("op") == "*" and len(kids(n)) == 1):
-            v = self.value(kids(n)[0], env, fn)
+            a = num(self.value(kids(n)[0], env, fn))
+            if a is None:
+                self.not_understood(n, fn)
+            if bool(a) == (n["op"] == "||"):
+                return ("bool", n["op"] == "||")
+            b = num(self.value(kids(n)[1], env, fn))
+            if b is None:
+                self.not_understood(n, fn)
+            return ("bool", bool(b))
+        ip = match.index_parts(n)
+        if ip and not n.get("member_call"):
+            base, idx = self.value(ip[0], env, fn), num(self.value(ip[1], env, fn))
+            if base[0] == "it" and idx is not None:
+                return ("slot", base[1] + idx)
+            self.not_understood(n, fn)
+        d = match.deref_of(n)
+        if d is not None:
+            v = self.value(d, env, fn)
             if v[0] == "it":
                 return ("slot", v[1])
-        raise dtable.Undecidable("%s: expression not understood in a network function: %s"
-                                 % (fn.nloc(n0), dtable.describe(n0)))
+            self.not_understood(n, fn)
+        if (k == "UnaryOperator" and n.get("op") == "&") or (is_std(n, ("addressof",)) and len(kids(n)) == 1):
+            v = self.value(kids(n)[0], env, fn)
+            if v[0] == "slot":
+                return ("it", v[1])
+            self.not_understood(n, fn)
+        u = match.unop(n, ("!", "-", "+", "~"))
+        if u and not u[2]:
+            v = num(self.value(u[1], env, fn))
+            if v is None:
+                self.not_understood(n, fn)
+            if u[0] == "!":
+                return ("bool", not v)
+            return self.wrap({"-": -v, "+": v, "~": ~v}[u[0]], n.get("ty"), fn, n)
+        bo = match.binop(n, ARITH)
+        if bo:
+            r = self.arith(bo[0], self.value(bo[1], env, fn), self.value(bo[2], env, fn), n.get("ty"), fn, n)
+            if r is None:
+                self.not_understood(n, fn)
+            return r
+        if "callee" in n:
+            args = kids(n)
+            plain = all(a is not None and a["k"] != "DefaultArg" for a in args)
+            if is_std(n, ("next", "prev")) and args and args[0] is not None:
+                rest = [a for a in args[1:] if a is not None and a["k"] != "DefaultArg"]
+                step = 1 if not rest else (num(self.value(rest[0], env, fn)) if len(rest) == 1 else None)
+                v = self.value(args[0], env, fn)
+                if step is not None and v[0] == "it":
+                    return ("it", v[1] + (step if n["callee"]["name"] == "next" else -step))
+                self.not_understood(n, fn)
+            if is_std(n, ("distance",)) and len(args) == 2 and plain:
+                a, b = self.value(args[0], env, fn), self.value(args[1], env, fn)
+                if a[0] == "it" and b[0] == "it":
+                    return self.wrap(b[1] - a[1], n.get("ty"), fn, n)
+                self.not_understood(n, fn)
+            if is_std(n, ("min", "max")) and len(args) == 2 and plain:
+                a, b = num(self.value(args[0], env, fn)), num(self.value(args[1], env, fn))
+                if a is not None and b is not None:
+                    return ("int", min(a, b) if n["callee"]["name"] == "min" else max(a, b))
+                self.not_understood(n, fn)
+            if is_std(n, ("move", "forward", "as_const")) and len(args) == 1 and plain:
+                return self.value(args[0], env, fn)
+            callee, base = None, None
+            if n["k"] == "CallExpr" and self.is_helper(n["callee"]):
+                callee = self.tu.by_did[n["callee"]["did"]]
+            elif n.get("op") == "()" and args and plain:
+                obj = self.value(args[0], env, fn)
+                callee = self.tu.by_did.get(n["callee"].get("did")) if obj[0] == "lambda" else None
+                if callee is not None and callee.body is not None:
+                    args, base = args[1:], obj[1]
+                else:
+                    callee = None
+            if callee is not None:
+                st, ret = self.invoke(callee, args, env, fn, self._out, fn.nloc(n), base=base)
+                if st is None and ret is not None:
+                    return ret
+                raise dtable.Undecidable("%s: call of %s gives no value" % (fn.nloc(n), n["callee"]["qname"]))
+        self.not_understood(n, fn)
 
+    def cell_of(self, e, env, fn):
+        n = unwrap(e)
+        if n is not None and n["k"] == "DeclRefExpr" and n["ref"]["id"] in env:
+            return env[n["ref"]["id"]]
+        raise dtable.Undecidable("%s: write to something that is not a local variable of the network function: %s"
+                                 % (fn.nloc(e), dtable.describe(e)))
+
+    def is_helper(self, c):
+        callee = self.tu.by_did.get(c.get("did"))
+        return callee is not None and callee.body is not None and c.get("qname", "").startswith("tlx::") \
+            and not c.get("record", "").startswith(NS + "CS_")
+
+    # ------------------------------------------------------------------ expressions with effects (statement level)
+    def exec_expr(self, e, env, fn, out):
+        """returns 'noreturn' | None"""
+        n = unwrap(e)
+        if n is None:
+            return None
+        k = n["k"]
+        if k == "BinaryOperator" and n.get("op") == ",":
+            return self.exec_expr(kids(n)[0], env, fn, out) or self.exec_expr(kids(n)[1], env, fn, out)
+        if k == "ConditionalOperator":
+            c = num(self.value(kids(n)[0], env, fn))
+            if c is None:
+                self.not_understood(n, fn)
+            return self.exec_expr(kids(n)[1] if c else kids(n)[2], env, fn, out)
+        b = match.binop(n, ASSIGN)
+        if b:
+            cell = self.cell_of(b[1], env, fn)
+            rhs = self.value(b[2], env, fn)
+            if cell[0] is not None and cell[0][0] not in MUTABLE:
+                raise dtable.Undecidable("%s: assignment through %s (an element or a functor is overwritten)"
+                                         % (fn.nloc(n), dtable.describe(b[1])))
+            if b[0] == "=":
+                new = rhs if rhs[0] in MUTABLE else None
+            else:
+                if cell[0] is None:
+                    raise dtable.Undecidable("%s: %s is updated before it holds a value" % (fn.nloc(n), dtable.describe(b[1])))
+                new = self.arith(b[0][:-1], cell[0], rhs, n.get("ty"), fn, n)
+            if new is None:
+                self.not_understood(n, fn)
+            cell[0] = new
+            return None
+        u = match.unop(n, ("++", "--"))
+        if u:
+            cell = self.cell_of(u[1], env, fn)
+            if cell[0] is None or cell[0][0] not in ("int", "it"):
+                self.not_understood(n, fn)
+            d = 1 if u[0] == "++" else -1
+            cell[0] = ("it", cell[0][1] + d) if cell[0][0] == "it" else self.wrap(cell[0][1] + d, u[1].get("ty"), fn, n)
+            return None
+        if "callee" in n and k not in CONSTRUCTS:
+            c = n["callee"]
+            args = kids(n)
+            if c.get("noreturn"):
+                return "noreturn"
+            if n.get("op") == "()" and args:
+                obj = self.value(args[0], env, fn)
+                if obj == ("cswap",):
+                    if len(args) != 3:
+                        raise dtable.Undecidable("%s: compare-exchange with %d operands" % (fn.nloc(n), len(args) - 1))
+                    a = self.value(args[1], env, fn)
+                    b = self.value(args[2], env, fn)
+                    if a[0] != "slot" or b[0] != "slot":
+                        raise dtable.Undecidable("%s: compare-exchange on non-slot" % fn.nloc(n))
+                    out.append((a[1], b[1], fn.nloc(n)))
+                    return None
+                if obj[0] == "lambda":
+                    callee = self.tu.by_did.get(c.get("did"))
+                    if callee is None or callee.body is None:
+                        raise dtable.Undecidable("%s: lambda body is not in the IR" % fn.nloc(n))
+                    st, _ = self.invoke(callee, args[1:], env, fn, out, fn.nloc(n), base=obj[1])
+                    return st
+            if k == "CallExpr" and c.get("qname", "").startswith("tlx::"):
+                if not self.is_helper(c):
+                    raise dtable.Undecidable("%s: callee %s has no body in the IR" % (fn.nloc(n), c["qname"]))
+                st, _ = self.invoke(self.tu.by_did[c["did"]], args, env, fn, out, fn.nloc(n))
+                return st
+            if is_std(n, ("advance",)) and len(args) == 2:
+                cell = self.cell_of(args[0], env, fn)
+                step = num(self.value(args[1], env, fn))
+                if cell[0] is None or cell[0][0] != "it" or step is None:
+                    self.not_understood(n, fn)
+                cell[0] = ("it", cell[0][1] + step)
+                return None
+            if k == "CallExpr" or n.get("member_call"):
+                raise dtable.Undecidable(
+                    "%s: statement is neither a compare-exchange nor a call of another network (%s)"
+                    % (fn.nloc(n), dtable.describe(n)))
+        # anything else must be an expression without effects that the interpreter can evaluate
+        self._out = out
+        self.value(n, env, fn)
+        return None
+
+    # ------------------------------------------------------------------ statements
     def run_stmt(self, s, env, fn, out):
-        """returns 'break' | 'return' | 'noreturn' | None"""
+        """returns 'break' | 'continue' | 'return' | 'noreturn' | None"""
+        if s is None:
+            return None
+        self._out = out
+        self.steps += 1
+        if self.steps > FUEL:
+            raise dtable.Undecidable("%s: interpretation of the network does not finish within %d statements" % (fn.nloc(s), FUEL))
         k = s["k"]
-        if k == "CompoundStmt":
+        if k in ("CompoundStmt", "AttributedStmt"):
             for c in kids(s):
                 r = self.run_stmt(c, env, fn, out)
                 if r:
@@ -105,23 +393,41 @@ class NetInterp:
             return None
         if k == "BreakStmt":
             return "break"
-        if k == "ReturnStmt" and not kids(s):
+        if k == "ContinueStmt":
+            return "continue"
+        if k == "ReturnStmt":
+            if kids(s) and kids(s)[0] is not None:
+                if bare_ty(kids(s)[0].get("ty")) == "void":          # return f(...); in a void function
+                    r = self.exec_expr(kids(s)[0], env, fn, out)
+                    if r:
+                        return r
+                else:
+                    self._ret = self.value(kids(s)[0], env, fn)
             return "return"
         if k == "IfStmt":
-            c = self.value(kids(s)[0], env, fn)
-            if c[0] not in ("bool", "int"):
+            if "condvar" in s:
+                raise dtable.Undecidable("%s: condition variable in a network function" % fn.nloc(s))
+            if s.get("init") is not None:
+                r = self.run_stmt(s["init"], env, fn, out)
+                if r:
+                    return r
+            c = num(self.value(kids(s)[0], env, fn))
+            if c is None:
                 raise dtable.Undecidable("%s: condition not understood in a network function" % fn.nloc(s))
-            br = kids(s)[1] if c[1] else (kids(s)[2] if len(kids(s)) > 2 else None)
+            br = kids(s)[1] if c else (kids(s)[2] if len(kids(s)) > 2 else None)
             return self.run_stmt(br, env, fn, out) if br is not None else None
         if k == "SwitchStmt":
-            c = self.value(kids(s)[0], env, fn)
-            if c[0] != "int":
+            c = num(self.value(kids(s)[0], env, fn))
+            if c is None:
                 raise dtable.Undecidable("%s: switch on something that is not the size" % fn.nloc(s))
             flat = flatten_switch(kids(s)[1])
-            pos = [i for i, e in enumerate(flat) if e[0] == "case" and e[1] == c[1]]
+            if any(e[0] == "case" and e[1] is None for e in flat) or any(e[0] == "stmt" and foreign_label(e[1]) for e in flat):
+                raise dtable.Undecidable("%s: switch with a case label that is not understood" % fn.nloc(s))
+            pos = [i for i, e in enumerate(flat) if e[0] == "case" and int(e[1]) == c]
             if not pos:
                 pos = [i for i, e in enumerate(flat) if e[0] == "default"]
-                self.defaulted = True
+                if pos:
+                    self.defaulted = True
             if not pos:
                 return None
             for e in flat[pos[0]:]:
@@ -133,57 +439,117 @@ class NetInterp:
                 if r:
                     return r
             return None
-        if k == "AttributedStmt":
-            for c in kids(s):
-                r = self.run_stmt(c, env, fn, out)
+        if k in ("ForStmt", "WhileStmt", "DoStmt"):
+            init, cond, inc, body = match.loop_parts(s)
+            if init is not None:
+                r = self.run_stmt(init, env, fn, out)
                 if r:
                     return r
-            return None
+            first = (k == "DoStmt")
+            while True:
+                self.steps += 1
+                if self.steps > FUEL:
+                    raise dtable.Undecidable("%s: loop does not finish within %d statements" % (fn.nloc(s), FUEL))
+                if not first and cond is not None:
+                    c = num(self.value(cond, env, fn))
+                    if c is None:
+                        raise dtable.Undecidable("%s: loop condition not understood in a network function" % fn.nloc(s))
+                    if not c:
+                        return None
+                first = False
+                r = self.run_stmt(body, env, fn, out)
+                if r == "break":
+                    return None
+                if r in ("return", "noreturn"):
+                    return r
+                if inc is not None:
+                    r = self.exec_expr(inc, env, fn, out)
+                    if r:
+                        return r
         if k == "DeclStmt":
             for v in kids(s):
+                if v is None or v["k"] != "VarDecl":
+                    raise dtable.Undecidable("%s: declaration not understood in a network function" % fn.nloc(s))
+                if v.get("static") and const_int(kids(v)[0] if kids(v) else None) is None:
+                    raise dtable.Undecidable("%s: static local in a network function" % fn.nloc(v))
                 ty = v.get("ty", "")
-                if "sort_networks::CS_" in ty:
-                    env[v["did"]] = ("cswap",)
-                elif kids(v):
-                    env[v["did"]] = self.value(kids(v)[0], env, fn)
-                else:
-                    raise dtable.Undecidable("%s: uninitialised local in a network function" % fn.nloc(v))
+                init = kids(v)[0] if kids(v) else None
+                if init is None:
+                    if is_ref_ty(ty) or is_cs_ty(ty):
+                        raise dtable.Undecidable("%s: uninitialised local in a network function" % fn.nloc(v))
+                    env[v["did"]] = [None]
+                    continue
+                val = self.value(init, env, fn)
+                if is_ref_ty(ty) or v.get("isref"):
+                    i0 = unwrap(init)
+                    if val[0] in MUTABLE and i0.get("lv"):
+                        if i0["k"] != "DeclRefExpr" or i0["ref"]["id"] not in env:
+                            raise dtable.Undecidable("%s: reference %s is bound to something that is not a local variable"
+                                                     % (fn.nloc(v), v.get("name")))
+                        env[v["did"]] = env[i0["ref"]["id"]]      # alias of another local
+                        continue
+                elif val[0] == "slot":
+                    raise dtable.Undecidable("%s: local %s is a copy of an element, not the element" % (fn.nloc(v), v.get("name")))
+                env[v["did"]] = [val]
             return None
-        if "callee" in s:
-            c = s["callee"]
-            args = kids(s)
-            if c.get("noreturn"):
-                return "noreturn"
-            if s.get("op") == "()" and args:
-                obj = self.value(args[0], env, fn)
-                if obj == ("cswap",) and len(args) == 3:
-                    a = self.value(args[1], env, fn)
-                    b = self.value(args[2], env, fn)
-                    if a[0] != "slot" or b[0] != "slot":
-                        raise dtable.Undecidable("%s: compare-exchange on non-slot" % fn.nloc(s))
-                    out.append((a[1], b[1], fn.nloc(s)))
-                    return None
-            if c["qname"].startswith(self.ns + "::") and s["k"] == "CallExpr":
-                callee = self.tu.by_did.get(c["did"])
-                if callee is None:
-                    raise dtable.Undecidable("%s: callee %s has no body in the IR" % (fn.nloc(s), c["qname"]))
-                self.call(callee, [self.value(a, env, fn) if a["k"] != "DefaultArg" else None
-                                   for a in args], out, fn.nloc(s))
-                return None
+        if "ty" in s or "callee" in s:
+            return self.exec_expr(s, env, fn, out)
         raise dtable.Undecidable(
             "%s: statement is neither a compare-exchange nor a call of another network (%s)"
             % (fn.nloc(s), dtable.describe(s)))
 
+    # ------------------------------------------------------------------ calls
+    def invoke(self, callee, argnodes, env, fn, out, site, base=None):
+        """call with argument expressions of the caller; returns (status, return value)"""
+        if len(argnodes) != len(callee.params):
+            raise dtable.Undecidable("%s: arity mismatch calling %s" % (site, callee.qname))
+        new = dict(base or {})
+        if base is None:
+            self.fn_visited.add(callee.qname)
+        for p, a in zip(callee.params, argnodes):
+            if a is None or a["k"] == "DefaultArg":
+                raise dtable.Undecidable("%s: default argument used for %s" % (site, p["name"]))
+            v = self.value(a, env, fn)
+            ref = is_ref_ty(p.get("ty"))
+            if v[0] == "slot" and not ref:
+                raise dtable.Undecidable("%s: an element is passed by value to %s (%s works on a copy)" % (site, callee.qname, p["name"]))
+            a0 = unwrap(a)
+            if ref and v[0] in MUTABLE and a0.get("lv"):
+                # a reference to a variable shares its cell; a reference to any other lvalue is not modelled
+                if a0["k"] != "DeclRefExpr" or a0["ref"]["id"] not in env:
+                    raise dtable.Undecidable("%s: reference parameter %s of %s is bound to something that is not a local variable"
+                                             % (site, p["name"], callee.qname))
+                new[p["did"]] = env[a0["ref"]["id"]]
+            else:
+                new[p["did"]] = [v]
+        return self.run_body(callee, new, out, site)
+
+    def run_body(self, callee, env, out, site):
+        if callee.body is None:
+            raise dtable.Undecidable("%s: callee %s has no body in the IR" % (site, callee.qname))
+        self.depth += 1
+        if self.depth > DEPTH:
+            raise dtable.Undecidable("%s: call depth of the network exceeds %d" % (site, DEPTH))
+        saved, self._ret = self._ret, None
+        r = self.run_stmt(callee.body, env, callee, out)
+        ret, self._ret = self._ret, saved
+        self.depth -= 1
+        self._out = out
+        return ("noreturn" if r == "noreturn" else None), ret
+
     def call(self, fn, argvals, out, site):
+        """top-level call with given parameter values; returns 'noreturn' | None"""
         self.fn_visited.add(fn.qname)
-        env = {}
+        self.steps = 0
+        self._out = out
         if len(argvals) != len(fn.params):
             raise dtable.Undecidable("%s: arity mismatch calling %s" % (site, fn.qname))
+        env = {}
         for p, v in zip(fn.params, argvals):
             if v is None:
                 raise dtable.Undecidable("%s: default argument used for %s" % (site, p["name"]))
-            env[p["did"]] = v
-        self.run_stmt(fn.body, env, fn, out)
+            env[p["did"]] = [v]
+        return self.run_body(fn, env, out, site)[0]
 
 
 def zero_one(n, comps):
@@ -195,10 +561,8 @@ def zero_one(n, comps):
         # bit j of wires[w] = bit w of j
         block = (1 << (1 << w)) - 1          # 2^w ones
         period = 1 << (w + 1)
-        x = 0
         # pattern: 2^w zeros then 2^w ones, repeated
         unit = block << (1 << w)
-        reps = N // period
         # build by doubling
         x = unit
         length = period
@@ -257,8 +621,11 @@ def flatten_switch(body):
             add(kids(s)[0])
         else:
             out.append(("stmt", s))
-    for c in kids(body):
-        add(c)
+    if body is not None and body["k"] == "CompoundStmt":
+        for c in kids(body):
+            add(c)
+    else:
+        add(body)
     return out
 
 
@@ -268,12 +635,13 @@ def check_dispatcher(ck, tu, fam, fn, nets_seen):
     ns = NS + fam
     interp = NetInterp(tu, ns)
     p = fn.params
+    if len(p) != 3 or bare_ty(p[0].get("ty")) != bare_ty(p[1].get("ty")) or is_cs_ty(p[2].get("ty")):
+        raise dtable.Undecidable("%s: the parameters of %s are not (begin, end, comparator)" % (fn.loc, fn.full))
     for n in range(0, 17):
         label = "case=%d" % n
-        env = {p[0]["did"]: ("it", 0), p[1]["did"]: ("it", n)}
         comps = []
         interp.defaulted = False
-        r = interp.run_stmt(fn.body, env, fn, comps)
+        r = interp.call(fn, [("it", 0), ("it", n), ("cmp",)], comps, fn.loc)
         if r == "noreturn":
             ck.violation("DISPATCH-SIZE", fn.qname, label, "size %d reaches a no-return call" % n, fn.loc)
             continue
@@ -281,108 +649,298 @@ def check_dispatcher(ck, tu, fam, fn, nets_seen):
             ck.violation("DISPATCH-SIZE", fn.qname, label, "no case for size %d (falls to default)" % n, fn.loc)
             continue
         check_network(ck, "DISPATCH-SIZE", fn, label, n, comps)
+    interp.fn_visited.discard(fn.qname)
     nets_seen.update(interp.fn_visited)
 
 
+# ---------------------------------------------------------------------- the compare-exchange functor
+CMP = ("cmp",)
+
+
+class Misuse(Exception):
+    def __init__(self, msg, node):
+        Exception.__init__(self, msg)
+        self.node = node
+
+
+class CswapEval:
+    """executes the compare-exchange functor on two labelled elements 'L', 'R' for one valuation v of the comparator.
+    A variable is a cell [value]; reference locals and reference parameters share the cell of what they are bound to.
+    Values: 'L' | 'R' (an element) | True / False | CMP (the functor's comparator).
+    Understood: if / ?: / && / || / ! on comparator calls, std::swap / iter_swap, value and reference locals,
+    assignments (copy or move), std::min / std::max with the functor's comparator, early return, calls of other
+    members / tlx helpers (executed)"""
+
+    def __init__(self, tu, v):
+        self.tu = tu
+        self.v = v
+        self.cmpcell = [CMP]
+        self.depth = 0
+        self.steps = 0
+        self._ret = None
+
+    def cmp(self, a, b):
+        return False if a == b else self.v[(a, b)]
+
+    def und(self, fn, n, what):
+        raise dtable.Undecidable("%s: %s not understood in the compare-exchange functor: %s" % (fn.nloc(n), what, dtable.describe(n)))
+
+    def elem(self, x, fn, n):
+        if x not in ("L", "R"):
+            self.und(fn, n, "operand of the comparator / of min, max")
+        return x
+
+    def truth(self, e, env, fn):
+        x = self.ev(e, env, fn)
+        if isinstance(x, (bool, int)):
+            return bool(x)
+        self.und(fn, e, "condition")
+
+    def pick(self, n, env, fn):
+        """the argument expression std::min / std::max returns (two operands or a two-element initializer list)"""
+        args = kids(n)
+        name = n["callee"]["name"]
+        if any(a is None or a["k"] == "DefaultArg" for a in args) or not args:
+            self.und(fn, n, "arguments of std::%s" % name)
+        first = unwrap(args[0])
+        if first["k"] == "CXXStdInitializerListExpr" and len(kids(first)) == 1 and kids(first)[0] is not None \
+                and kids(first)[0]["k"] == "InitListExpr" and len(kids(kids(first)[0])) == 2:
+            ops, rest = kids(kids(first)[0]), args[1:]
+        else:
+            ops, rest = args[:2], args[2:]
+        if len(ops) != 2 or len(rest) > 1:
+            self.und(fn, n, "arguments of std::%s" % name)
+        a, b = self.elem(self.ev(ops[0], env, fn), fn, n), self.elem(self.ev(ops[1], env, fn), fn, n)
+        if not rest:
+            # std::min(x, y) of two elements compares with operator<, whatever the functor's comparator is
+            raise Misuse("std::%s is called without the functor's comparator" % name, n)
+        if self.ev(rest[0], env, fn) != CMP:
+            self.und(fn, n, "comparator of std::%s" % name)
+        if name == "min":
+            return ops[1] if self.cmp(b, a) else ops[0]
+        return ops[1] if self.cmp(a, b) else ops[0]
+
+    def lv(self, e, env, fn):
+        """cell of an lvalue expression; None when e is not an lvalue of an understood form"""
+        n = unwrap(e)
+        if n is None:
+            return None
+        k = n["k"]
+        if k == "DeclRefExpr":
+            return env.get(n["ref"]["id"])
+        if ir.is_this_member(n):
+            return self.cmpcell
+        if k == "ConditionalOperator":
+            return self.lv(kids(n)[1] if self.truth(kids(n)[0], env, fn) else kids(n)[2], env, fn)
+        if is_std(n, ("move", "forward", "as_const")) and len(kids(n)) == 1:
+            return self.lv(kids(n)[0], env, fn)
+        if is_std(n, ("min", "max")) and "&" in n["callee"].get("ret", ""):
+            return self.lv(self.pick(n, env, fn), env, fn)
+        return None
+
+    def ev(self, e, env, fn):
+        n = unwrap(e)
+        if n is None:
+            raise dtable.Undecidable("%s: missing expression in the compare-exchange functor" % fn.loc)
+        k = n["k"]
+        cell = self.lv(n, env, fn)
+        if cell is not None:
+            if cell[0] is None:
+                raise dtable.Undecidable("%s: variable is read before it holds a value in the compare-exchange functor" % fn.nloc(n))
+            return cell[0]
+        if k == "DeclRefExpr":
+            if const_int(n) is not None:
+                return bool(const_int(n))
+            raise dtable.Undecidable("%s: unbound variable in the compare-exchange functor" % fn.nloc(n))
+        if const_int(n) is not None:
+            return bool(const_int(n))
+        if k in CONSTRUCTS and len(kids(n)) == 1 and kids(n)[0] is not None and kids(n)[0]["k"] != "DefaultArg":
+            return self.ev(kids(n)[0], env, fn)            # copy / move of an element or of the comparator
+        if k == "UnaryOperator" and n.get("op") == "!":
+            return not self.truth(kids(n)[0], env, fn)
+        if k == "BinaryOperator" and n.get("op") in ("&&", "||"):
+            a = self.truth(kids(n)[0], env, fn)
+            if a == (n["op"] == "||"):
+                return a
+            return self.truth(kids(n)[1], env, fn)
+        if k == "ConditionalOperator":
+            return self.ev(kids(n)[1] if self.truth(kids(n)[0], env, fn) else kids(n)[2], env, fn)
+        if "callee" in n and n.get("op") == "()" and len(kids(n)) == 3 and self.lv(kids(n)[0], env, fn) is not None \
+                and self.ev(kids(n)[0], env, fn) == CMP:
+            a, b = self.ev(kids(n)[1], env, fn), self.ev(kids(n)[2], env, fn)
+            return self.cmp(self.elem(a, fn, n), self.elem(b, fn, n))
+        if is_std(n, ("min", "max")):
+            return self.ev(self.pick(n, env, fn), env, fn)
+        if is_std(n, ("exchange",)) and len(kids(n)) == 2:
+            cell = self.lv(kids(n)[0], env, fn)
+            if cell is None or cell is self.cmpcell or cell[0] is None:
+                self.und(fn, n, "target of std::exchange")
+            new = self.ev(kids(n)[1], env, fn)
+            old, cell[0] = cell[0], new
+            return old
+        if "callee" in n and n["k"] in ("CallExpr", "CXXMemberCallExpr") and self.is_helper(n["callee"]):
+            ret = self.invoke(n, env, fn)
+            if ret is None:
+                self.und(fn, n, "value of the call")
+            return ret
+        self.und(fn, n, "expression")
+
+    def is_helper(self, c):
+        callee = self.tu.by_did.get(c.get("did"))
+        return callee is not None and callee.body is not None and c.get("qname", "").startswith("tlx::")
+
+    def invoke(self, n, env, fn):
+        callee = self.tu.by_did[n["callee"]["did"]]
+        args = list(kids(n))
+        if n.get("member_call"):
+            obj = unwrap(args[0]) if args else None
+            if obj is None or obj["k"] != "This":
+                self.und(fn, n, "member call on another object")
+            args = args[1:]
+        if len(args) != len(callee.params):
+            self.und(fn, n, "arity of the call")
+        new = {}
+        for p, a in zip(callee.params, args):
+            if a is None or a["k"] == "DefaultArg":
+                self.und(fn, n, "default argument of the call")
+            cell = self.lv(a, env, fn) if is_ref_ty(p.get("ty")) else None
+            if is_ref_ty(p.get("ty")) and cell is None and unwrap(a).get("lv"):
+                self.und(fn, a, "object the reference parameter %s is bound to" % p.get("name"))
+            new[p["did"]] = cell if cell is not None else [self.ev(a, env, fn)]
+        self.depth += 1
+        if self.depth > DEPTH:
+            self.und(fn, n, "recursion")
+        saved, self._ret = self._ret, None
+        self.run(callee.body, new, callee)
+        ret, self._ret = self._ret, saved
+        self.depth -= 1
+        return ret
+
+    def exec_expr(self, e, env, fn):
+        n = unwrap(e)
+        if n is None:
+            return
+        k = n["k"]
+        if k == "BinaryOperator" and n.get("op") == ",":
+            self.exec_expr(kids(n)[0], env, fn)
+            self.exec_expr(kids(n)[1], env, fn)
+            return
+        if k == "ConditionalOperator":
+            self.exec_expr(kids(n)[1] if self.truth(kids(n)[0], env, fn) else kids(n)[2], env, fn)
+            return
+        if "callee" in n and n["callee"]["name"] in ("swap", "iter_swap") and len(kids(n)) == 2 and k == "CallExpr" \
+                and not self.is_helper(n["callee"]):
+            cells = []
+            for a in kids(n):
+                a = unwrap(a)
+                if n["callee"]["name"] == "iter_swap":
+                    if a is not None and ((a["k"] == "UnaryOperator" and a.get("op") == "&") or is_std(a, ("addressof",))) and len(kids(a)) == 1:
+                        a = kids(a)[0]
+                    else:
+                        a = None
+                c = self.lv(a, env, fn) if a is not None else None
+                if c is None or c is self.cmpcell or c[0] not in ("L", "R"):
+                    raise dtable.Undecidable("%s: swap of something else than two variables that hold an element" % fn.nloc(n))
+                cells.append(c)
+            cells[0][0], cells[1][0] = cells[1][0], cells[0][0]
+            return
+        if n.get("member_call") and n["callee"]["name"] == "swap" and len(kids(n)) == 2:
+            cells = [self.lv(a, env, fn) for a in kids(n)]
+            if any(c is None or c is self.cmpcell or c[0] not in ("L", "R") for c in cells):
+                raise dtable.Undecidable("%s: swap of something else than two variables that hold an element" % fn.nloc(n))
+            cells[0][0], cells[1][0] = cells[1][0], cells[0][0]
+            return
+        b = match.binop(n, ("=",))
+        if b:
+            cell = self.lv(b[1], env, fn)
+            if cell is None or cell is self.cmpcell:
+                self.und(fn, n, "target of the assignment")
+            cell[0] = self.ev(b[2], env, fn)
+            return
+        if "callee" in n and k in ("CallExpr", "CXXMemberCallExpr") and self.is_helper(n["callee"]):
+            self.invoke(n, env, fn)
+            return
+        if "callee" in n and k in ("CallExpr", "CXXMemberCallExpr"):
+            self.und(fn, n, "statement")
+        self.ev(n, env, fn)        # an expression without effects
+
+    def run(self, s, env, fn):
+        """returns 'return' | None"""
+        if s is None:
+            return None
+        self.steps += 1
+        if self.steps > FUEL:
+            raise dtable.Undecidable("%s: the compare-exchange functor does not finish" % fn.nloc(s))
+        k = s["k"]
+        if k in ("CompoundStmt", "AttributedStmt"):
+            for c in kids(s):
+                if self.run(c, env, fn):
+                    return "return"
+            return None
+        if k == "NullStmt":
+            return None
+        if k == "IfStmt":
+            if "condvar" in s:
+                self.und(fn, s, "condition variable")
+            if s.get("init") is not None and self.run(s["init"], env, fn):
+                return "return"
+            br = kids(s)[1] if self.truth(kids(s)[0], env, fn) else (kids(s)[2] if len(kids(s)) > 2 else None)
+            return self.run(br, env, fn)
+        if k == "DeclStmt":
+            for d in kids(s):
+                if d is None or d["k"] != "VarDecl" or d.get("static"):
+                    self.und(fn, s, "declaration")
+                init = kids(d)[0] if kids(d) else None
+                ref = is_ref_ty(d.get("ty")) or d.get("isref")
+                if init is None or (init["k"] in CONSTRUCTS and not kids(init)):
+                    if ref:
+                        self.und(fn, s, "declaration")
+                    env[d["did"]] = [None]                 # holds no input element yet
+                    continue
+                cell = self.lv(init, env, fn) if ref else None
+                if ref and cell is None and unwrap(init).get("lv"):
+                    self.und(fn, init, "object the reference %s is bound to" % d.get("name"))
+                env[d["did"]] = cell if cell is not None else [self.ev(init, env, fn)]
+            return None
+        if k == "ReturnStmt":
+            if kids(s) and kids(s)[0] is not None:
+                if bare_ty(kids(s)[0].get("ty")) == "void":
+                    self.exec_expr(kids(s)[0], env, fn)
+                else:
+                    self._ret = self.ev(kids(s)[0], env, fn)
+            return "return"
+        if "ty" in s or "callee" in s:
+            self.exec_expr(s, env, fn)
+            return None
+        self.und(fn, s, "statement")
+
+
 def check_cswap(ck, tu):
-    """the compare-exchange functor is evaluated on two labelled elements L, R for the three consistent outcomes of
-    (cmp(L,R), cmp(R,L)): the slots must afterwards hold a permutation of {L, R} with not cmp(right, left).  Understood:
-    if / ?: on comparator calls, std::swap, locals, assignments, std::min / std::max with the functor's comparator"""
+    """the compare-exchange functor is executed on two labelled elements L, R for the three consistent outcomes of
+    (cmp(L,R), cmp(R,L)): the caller's slots must afterwards hold a permutation of {L, R} with not cmp(right, left)"""
     fns = tu.some(qname=NS + "CS_IfSwap::operator()")
     for fn in fns:
-        l, r = fn.params[0]["did"], fn.params[1]["did"]
+        if len(fn.params) != 2:
+            raise dtable.Undecidable("%s: the compare-exchange functor does not take two elements" % fn.loc)
         bad = None
         for v in ({("L", "R"): True, ("R", "L"): False}, {("L", "R"): False, ("R", "L"): True}, {("L", "R"): False, ("R", "L"): False}):
-            env = {l: "L", r: "R"}
-
-            def cmp(a, b, v=v):
-                return False if a == b else v[(a, b)]
-
-            def ev(e):
-                e = strip_casts(e)
-                d = ir.ref_of(e)
-                if d is not None:
-                    if d not in env:
-                        raise dtable.Undecidable("%s: unbound variable in the compare-exchange functor" % fn.nloc(e))
-                    return env[d]
-                if e["k"] == "ParenExpr":
-                    return ev(kids(e)[0])
-                if e["k"] == "ConditionalOperator":
-                    c, a, b = kids(e)
-                    return ev(a) if truth(c) else ev(b)
-                if "callee" in e and e["callee"]["name"] in ("min", "max") and len(kids(e)) in (2, 3):
-                    if len(kids(e)) == 2 or not ir.is_this_member(strip_casts(kids(e)[2])):
-                        raise Misuse("std::%s is called without the functor's comparator" % e["callee"]["name"], e)
-                    a, b = ev(kids(e)[0]), ev(kids(e)[1])
-                    if e["callee"]["name"] == "min":
-                        return b if cmp(b, a) else a
-                    return b if cmp(a, b) else a
-                if "callee" in e and e["callee"]["name"] == "move" and len(kids(e)) == 1:
-                    return ev(kids(e)[0])
-                if e["k"] in ("CXXConstructExpr",) and len(kids(e)) == 1:
-                    return ev(kids(e)[0])
-                raise dtable.Undecidable("%s: expression not understood in the compare-exchange functor: %s" % (fn.nloc(e), dtable.describe(e)))
-
-            def truth(c):
-                c = strip_casts(c)
-                if c["k"] == "ParenExpr":
-                    return truth(kids(c)[0])
-                if c["k"] == "UnaryOperator" and c.get("op") == "!":
-                    return not truth(kids(c)[0])
-                if c["k"] == "BinaryOperator" and c.get("op") in ("&&", "||"):
-                    a = truth(kids(c)[0])
-                    if c["op"] == "&&":
-                        return a and truth(kids(c)[1])
-                    return a or truth(kids(c)[1])
-                if "callee" in c and c.get("op") == "()" and len(kids(c)) == 3 and ir.is_this_member(strip_casts(kids(c)[0])):
-                    return cmp(ev(kids(c)[1]), ev(kids(c)[2]))
-                raise dtable.Undecidable("%s: condition not understood in the compare-exchange functor: %s" % (fn.nloc(c), dtable.describe(c)))
-
-            def stmt(s_):
-                if s_ is None:
-                    return
-                k = s_["k"]
-                if k == "CompoundStmt":
-                    for c in kids(s_):
-                        stmt(c)
-                elif k == "IfStmt":
-                    c, t, e = kids(s_)
-                    stmt(t if truth(c) else e)
-                elif k == "DeclStmt":
-                    for d in kids(s_):
-                        if kids(d) and kids(d)[0] is not None:
-                            env[d["did"]] = ev(kids(d)[0])
-                elif k == "ReturnStmt":
-                    raise _Ret()
-                elif k == "NullStmt":
-                    pass
-                else:
-                    e = strip_casts(s_)
-                    if "callee" in e and e["callee"]["name"] in ("swap", "iter_swap") and len(kids(e)) == 2:
-                        a, b = ir.ref_of(kids(e)[0]), ir.ref_of(kids(e)[1])
-                        if a is None or b is None:
-                            raise dtable.Undecidable("%s: swap of something else than two variables" % fn.nloc(e))
-                        env[a], env[b] = env[b], env[a]
-                        return
-                    b = match.binop(e, ("=",))
-                    if b and ir.ref_of(b[1]) is not None:
-                        env[ir.ref_of(b[1])] = ev(b[2])
-                        return
-                    raise dtable.Undecidable("%s: statement not understood in the compare-exchange functor: %s" % (fn.nloc(e), dtable.describe(e)))
+            evl = CswapEval(tu, v)
+            slots = (["L"], ["R"])                       # the two elements of the caller
+            # a by-value parameter is a copy: what the functor does to it never reaches the caller's slot
+            env = {p["did"]: (cell if is_ref_ty(p.get("ty")) else [cell[0]]) for p, cell in zip(fn.params, slots)}
             try:
-                try:
-                    stmt(fn.body)
-                except _Ret:
-                    pass
+                evl.run(fn.body, env, fn)
             except Misuse as m:
                 bad = (v, str(m))
                 break
-            left, right = env[l], env[r]
+            left, right = slots[0][0], slots[1][0]
+            if left not in ("L", "R") or right not in ("L", "R"):
+                raise dtable.Undecidable("%s: a slot holds something else than one of the two elements after the compare-exchange" % fn.loc)
             if sorted((left, right)) != ["L", "R"]:
                 bad = (v, "both slots hold element %s afterwards: one of two elements that compare %s is lost and the other duplicated (the output is "
                           "no longer a permutation of the input)" % (left, "equivalent" if not v[("L", "R")] and not v[("R", "L")] else "unequal"))
                 break
-            if cmp(right, left):
+            if evl.cmp(right, left):
                 bad = (v, "afterwards right < left still holds: the pair is not put in order")
                 break
         if bad:
@@ -393,69 +951,84 @@ def check_cswap(ck, tu):
             ck.ok("CSWAP-TABLE", fn.full, "3 consistent outcomes of (cmp(l,r), cmp(r,l)): the slots hold a permutation of the two elements, in order")
 
 
-class _Ret(Exception):
-    pass
+def direct_args(fn, n):
+    """parameter values for a direct call of sort<n>: one iterator, or n element references, and the functor"""
+    cs = [p for p in fn.params if is_cs_ty(p.get("ty"))]
+    rest = [p for p in fn.params if not is_cs_ty(p.get("ty"))]
+    if len(cs) != 1 or fn.params[-1] is not cs[0]:
+        raise dtable.Undecidable("%s: parameters of %s are not (elements..., compare-exchange functor)" % (fn.loc, fn.full))
+    if len(rest) == n and all(is_ref_ty(p.get("ty")) for p in rest):
+        return [("slot", i) for i in range(n)] + [("cswap",)]
+    if len(rest) == 1:
+        return [("it", 0), ("cswap",)]
+    raise dtable.Undecidable("%s: %s takes neither one iterator nor %d element references" % (fn.loc, fn.full, n))
 
 
-class Misuse(Exception):
-    def __init__(self, msg, node):
-        Exception.__init__(self, msg)
-        self.node = node
-
-
+def extract_as_written(src, defs):
+    """the interpreters of this file execute new helpers, locals, aliases and lambdas themselves, so the tree is taken as
+    written: the rewriting of engine/normalize.py is not needed here, and one of its rewrites (a local that is written
+    only inside a lambda replaced by its initialiser) would change what is executed"""
+    old = os.environ.get("VERIF_NO_NORMALIZE")
+    os.environ["VERIF_NO_NORMALIZE"] = "1"
+    try:
+        return ir.extract(src, defines=defs)
+    finally:
+        if old is None:
+            del os.environ["VERIF_NO_NORMALIZE"]
+        else:
+            os.environ["VERIF_NO_NORMALIZE"] = old
 
 
 def run(ck):
     ck.level = "proof"
     ck.explanation = (
         "For each network family and n=2..16 the compare-exchange sequence is extracted from the "
-        "instantiated AST by abstract interpretation of slot indices (iterator offsets / reference "
-        "parameters) through the call tree; the zero-one principle is then decided over all 2^n "
+        "instantiated AST by concrete interpretation of slot indices (iterator offsets / reference "
+        "parameters, integer locals, loops, helper calls) through the call tree; the zero-one principle is then decided over all 2^n "
         "inputs bit-parallel. The size dispatchers are interpreted case by case (0..16) and each case "
-        "must reach a network that sorts exactly slots 0..n-1. CS_IfSwap's decision table is decided "
-        "over the weak-order-consistent valuations of cmp(l,r), cmp(r,l). Any construct other than a "
-        "compare-exchange or a call of another network function makes the check stop as undecidable.")
+        "must reach a network that sorts exactly slots 0..n-1. CS_IfSwap is executed on two labelled elements "
+        "for the weak-order-consistent valuations of cmp(l,r), cmp(r,l). Any construct the interpreters do not "
+        "understand makes the check stop as undecidable.")
     defs = ["WITNESS_THOROUGH"] if ck.tier == "thorough" else []
-    tu = ir.extract("witness/C15_networks.cpp", defines=defs)
+    tu = extract_as_written("witness/C15_networks.cpp", defs)
     per_inst = {}
     for fam in FAMILIES:
         ns = NS + fam
         disp = tu.some(qname=ns + "::sort")
         seen = set()
         for fn in disp:
-            check_dispatcher(ck, tu, fam, fn, seen)
+            ck.guarded(lambda fn=fn: check_dispatcher(ck, tu, fam, fn, seen))
         direct = [f for f in tu.functions if f.qname.startswith(ns + "::") and re.fullmatch(r"sort(\d+)", f.name)]
         sizes = set()
+
+        def one(fn, n):
+            interp = NetInterp(tu, ns)
+            comps = []
+            r = interp.call(fn, direct_args(fn, n), comps, fn.loc)
+            interp.fn_visited.discard(fn.qname)
+            seen.update(interp.fn_visited)
+            seen.add(fn.qname)
+            if r == "noreturn":
+                ck.violation("NET-SORTS", fn.qname, "n=%d" % n, "sort%d reaches a no-return call" % n, fn.loc)
+                return
+            check_network(ck, "NET-SORTS", fn, "n=%d" % n, n, comps)
+            per_inst.setdefault((fam, n), []).append((fn.full, [(a, b) for a, b, _ in comps]))
         for fn in direct:
             n = int(fn.name[4:])
             sizes.add(n)
-            interp = NetInterp(tu, ns)
-            comps = []
-            its = [p for p in fn.params[:-1]]
-            if len(its) == 1 and n != 1:
-                args = [("it", 0)]
-            else:
-                args = [("slot", i) for i in range(len(its))]
-                if len(its) != n:
-                    ck.violation("NET-SORTS", fn.qname, "arity", "sort%d takes %d element references" % (n, len(its)), fn.loc)
-                    continue
-            args.append(("cswap",))
-            interp.call(fn, args, comps, fn.loc)
-            seen.update(interp.fn_visited)
-            check_network(ck, "NET-SORTS", fn, "n=%d" % n, n, comps)
-            per_inst.setdefault((fam, n), []).append((fn.full, [(a, b) for a, b, _ in comps]))
+            ck.guarded(lambda fn=fn, n=n: one(fn, n))
         missing = [n for n in range(2, 17) if n not in sizes]
         ck.require(not missing, "family %s: sort%s not instantiated by the witness" % (fam, missing))
         for q in sorted(seen):
             ck.ok("NET-OBLIVIOUS", q, "body consists of compare-exchanges and network calls only", nontrivial=False)
-    if ck.tier == "thorough":
+    if ck.tier == "thorough" and not ck.deferred:
         for (fam, n), lst in sorted(per_inst.items()):
             ck.require(len(lst) >= 2, "thorough: second instantiation of %s::sort%d missing" % (fam, n))
             same = all(c == lst[0][1] for _, c in lst)
             if not same:
                 raise ir.AnalysisBroken("network %s::sort%d differs between instantiations" % (fam, n))
             ck.ok("NET-INST-INDEPENDENT", "%s::sort%d" % (fam, n), "%d instantiations give the identical network" % len(lst), nontrivial=False)
-    check_cswap(ck, tu)
+    ck.guarded(lambda: check_cswap(ck, tu))
     ck.floor("NET-SORTS", 45)
     ck.floor("DISPATCH-SIZE", 51)
     ck.floor("CSWAP-TABLE", 1)
